@@ -25,7 +25,7 @@ Import ListNotations.
 
 IMPORTS = ("Scalar Outcome Support Poly Spline Ops Forms Generator Interp Spec Spec_Ops Spec_Gen "
            "Proofs_Support Proofs_Scalar Proofs_Poly Proofs_Binom Proofs_Eval Proofs_Outcome Proofs_Spline "
-           "Proofs_Forms Proofs_Ops Proofs_Forms2 Proofs_Interp Proofs_Pred Proofs_Gen Instances Instances_Ext Proofs_Valid")
+           "Proofs_Forms Proofs_Ops Proofs_Forms2 Proofs_Interp Proofs_Pred Proofs_Gen Instances Instances_Ext Proofs_Valid Solver Pool Quad Proofs_Pool Proofs_Quad")
 
 TABLE = {
     "C02": ("evaluation returns the value of the stored piecewise polynomial", """
@@ -149,6 +149,91 @@ TABLE = {
         ("C01_supplied_grid_mismatch", "Proofs_Gen.gen_route2_mismatch"),
         ("C01_constructor", "Proofs_Gen.gen_ctor1_iff"),
         ("C01_grid_is_unique_knots", "Proofs_Gen.gen_ctor1_ok"),
+    ]),
+    "C08": ("operations across different grids are refused, never computed", """
+   Function level (Throw DIFFERING_GRIDS) and lifted to the pool state machine: the step
+   returns the unchanged state.  Grids are compared logically (lists of points), so distinct
+   objects holding the same points are the same grid by construction of the model; that part
+   is carried by the correspondence run (shared vs. separately constructed grid objects).""", [
+        ("C08_add", "Proofs_Spline.spl_add_differing"),
+        ("C08_sub", "Proofs_Spline.spl_sub_differing"),
+        ("C08_mul", "Proofs_Spline.spl_mul_differing"),
+        ("C08_iadd", "Proofs_Spline.spl_iadd_differing"),
+        ("C08_isub", "Proofs_Spline.spl_isub_differing"),
+        ("C08_lin_comb", "Proofs_Spline.lin_comb_differing"),
+        ("C08_bilinear", "Proofs_Forms.bilinear_differing"),
+        ("C08_integrate", "Proofs_Quad.integrate_differing"),
+        ("C08_spline_factor", "Proofs_Ops.apply_differing"),
+        ("C08_union", "Proofs_Support.calc_union_differing"),
+        ("C08_intersection", "Proofs_Support.calc_inter_differing"),
+        ("C08_generator", "Proofs_Gen.gen_ctor2_mismatch"),
+        ("C08_step_add", "Proofs_Pool.c08_spl_add"),
+        ("C08_step_sub", "Proofs_Pool.c08_spl_sub"),
+        ("C08_step_mul", "Proofs_Pool.c08_spl_mul"),
+        ("C08_step_iadd", "Proofs_Pool.c08_spl_iadd"),
+        ("C08_step_isub", "Proofs_Pool.c08_spl_isub"),
+        ("C08_step_union", "Proofs_Pool.c08_sup_union"),
+        ("C08_step_inter", "Proofs_Pool.c08_sup_inter"),
+        ("C08_step_bilin", "Proofs_Pool.c08_bilin"),
+        ("C08_step_lin_comb", "Proofs_Pool.c08_lin_comb"),
+        ("C08_step_gen2", "Proofs_Pool.c08_gen2"),
+        ("C08_equal_grids_add", "Proofs_Spline.spl_add_spec"),
+        ("C08_equal_grids_mul", "Proofs_Spline.spl_mul_spec"),
+    ]),
+    "C09": ("no operation touches memory outside its objects or runs into undefined behaviour", """
+   The model makes every C++ partiality explicit: unchecked subscripts are `sub` (UB OOBRead when
+   out of range), optional::value() is `value` (Throw BadOptionalAccess), vector::at is `at_`
+   (Throw StdOutOfRange), zero divisors UB DivByZero.  no_ub: on every well-typed operation over a
+   valid state none of these occurs — for every history.  Checked accessors throw for every index
+   outside the view, for all 64-bit index values (C13 theorems, restated).  Object lifetimes,
+   uninitialised storage and allocator behaviour are outside the model (sanitizer runs only).""", [
+        ("C09_no_ub", "Proofs_Pool.no_ub"),
+        ("C09_no_ub_history", "Proofs_Pool.no_ub_history"),
+        ("C09_no_ub_with_model_solver", "Proofs_Pool.no_ub_gauss"),
+        ("C09_transform_total", "Proofs_Pool.transform_total"),
+        ("C09_support_at", "Proofs_Support.sup_at_spec"),
+        ("C09_interval_index", "Proofs_Support.interval_index_spec"),
+        ("C09_relative_index", "Proofs_Support.rel_from_abs_spec"),
+        ("C09_absolute_index", "Proofs_Support.abs_from_rel_spec"),
+        ("C09_eval_total", "Proofs_Eval.seval_total"),
+    ]),
+    "C10": ("objects are always valid: class invariants survive every history", "", [
+        ("C10_init", "Proofs_Pool.inv_init"),
+        ("C10_writes_valid", "Proofs_Pool.eval_op_inv"),
+        ("C10_step", "Proofs_Pool.inv_step"),
+        ("C10_run", "Proofs_Pool.inv_run"),
+        ("C10_history", "Proofs_Pool.inv_history"),
+        ("C10_history_with_model_solver", "Proofs_Pool.inv_history_gauss"),
+        ("C10_moved_from_support", "Proofs_Pool.moved_from_sup"),
+        ("C10_moved_from_support_assign", "Proofs_Pool.moved_from_sup_assign"),
+        ("C10_moved_from_spline", "Proofs_Pool.moved_from_spl"),
+        ("C10_moved_from_spline_assign", "Proofs_Pool.moved_from_spl_assign"),
+        ("C10_moved_from_support_valid", "Proofs_Pool.moved_from_valid_sup"),
+        ("C10_moved_from_spline_valid", "Proofs_Pool.moved_from_valid_spl"),
+        ("C10_size_bound_needed", "Proofs_Pool.grid_size_bound_needed"),
+    ]),
+    "C14": ("value semantics: operations never disturb their operands or earlier results", "", [
+        ("C14_frame", "Proofs_Pool.frame"),
+        ("C14_frame_history", "Proofs_Pool.frame_run"),
+        ("C14_writes_are_targets", "Proofs_Pool.eval_op_targets"),
+        ("C14_throw_changes_nothing", "Proofs_Pool.throw_changes_nothing"),
+        ("C14_ub_changes_nothing", "Proofs_Pool.ub_changes_nothing"),
+        ("C14_observers_change_nothing", "Proofs_Pool.observers_change_nothing"),
+        ("C14_copy_independent", "Proofs_Pool.copy_independent"),
+        ("C14_copy_value", "Proofs_Pool.copy_value"),
+    ]),
+    "C17": ("numerical quadrature matches the analytic forms where Gauss-Legendre is exact", """
+   Relative to the rule: `rule` is any function satisfying rule_ext (depends only on the values
+   of the integrand) and rule_exact (exact for polynomials of degree <= 2n-1, written about the
+   interval midpoint) — premises of the theorems, not axioms.  That Boost's tables are such a
+   rule is validated numerically by the check, not proved.""", [
+        ("C17_spec", "Proofs_Quad.integrate_spec"),
+        ("C17_sum_over_common_intervals", "Proofs_Quad.integrate_sum"),
+        ("C17_no_common_interval", "Proofs_Quad.integrate_no_common"),
+        ("C17_differing_grids", "Proofs_Quad.integrate_differing"),
+        ("C17_weight_is_multiplication", "Proofs_Quad.peval_weight"),
+        ("C17_weight_order", "Proofs_Quad.out_ord_weight"),
+        ("C17_horner", "Proofs_Quad.horner_spec"),
     ]),
     "C11": ("malformed input is rejected at the boundary with the library's exception", """
    One characterisation per validating entry point: accepted iff valid, and every refusal is
